@@ -26,6 +26,12 @@ type PFrag struct {
 	N      int
 	Union  []any // string or int members
 	Slice  []int // 1..3 numbers: start, end, step
+	// InclEnd selects with SliceIndexesIncl instead of SliceIndexes (only
+	// used to label findings, never as the oracle).
+	InclEnd bool
+	// Grid selects every index on the slice's grid from its start on, whatever
+	// the end is (SliceIndexesGrid): a superset of any reading of the end.
+	Grid bool
 	Filter func(v any) bool
 }
 
@@ -104,6 +110,85 @@ func SliceIndexes(sl []int, n int) (idx []int, ok bool) {
 		}
 	}
 	return idx, true
+}
+
+// SliceIndexesIncl is the (documented-as-known-finding) reading of a slice by
+// ojg's mutating operations: the end is inclusive, a missing end means the
+// last element, an end beyond the array is clamped to the last element and a
+// start outside the array selects nothing. It labels findings only.
+func SliceIndexesIncl(sl []int, n int) (idx []int) {
+	start, end, step := 0, -1, 1
+	if len(sl) > 0 {
+		start = sl[0]
+	}
+	if len(sl) > 1 {
+		end = sl[1]
+	}
+	if len(sl) > 2 {
+		step = sl[2]
+	}
+	if start < 0 {
+		start += n
+	}
+	if end < 0 {
+		end += n
+	}
+	if n <= end {
+		end = n - 1
+	}
+	if start < 0 || end < 0 || n <= start || step == 0 {
+		return nil
+	}
+	if step > 0 {
+		for i := start; i <= end; i += step {
+			idx = append(idx, i)
+		}
+		return idx
+	}
+	for i := start; i >= end; i += step {
+		idx = append(idx, i)
+	}
+	return idx
+}
+
+// SliceIndexesGrid returns every index of an n element array that lies on
+// the grid start, start+step, start+2*step, ... (start normalized, any end).
+func SliceIndexesGrid(sl []int, n int) (idx []int) {
+	start, step := 0, 1
+	if len(sl) > 0 {
+		start = sl[0]
+	}
+	if len(sl) > 2 {
+		step = sl[2]
+	}
+	if step == 0 {
+		return nil
+	}
+	if start < 0 {
+		start += n
+		if start < 0 {
+			start = 0
+		}
+	}
+	if step > 0 {
+		for i := start; i < n; i += step {
+			idx = append(idx, i)
+			if len(idx) > n {
+				break
+			}
+		}
+		return idx
+	}
+	if start >= n {
+		start = n - 1
+	}
+	for i := start; i >= 0; i += step {
+		idx = append(idx, i)
+		if len(idx) > n {
+			break
+		}
+	}
+	return idx
 }
 
 func descend(n Node, out *[]Node) {
@@ -187,6 +272,12 @@ func Select(frags []PFrag, root any) Selection {
 			case FSlice:
 				if a, ok := n.Val.([]any); ok {
 					idx, spec := SliceIndexes(f.Slice, len(a))
+					if f.InclEnd {
+						idx, spec = SliceIndexesIncl(f.Slice, len(a)), true
+					}
+					if f.Grid {
+						idx, spec = SliceIndexesGrid(f.Slice, len(a)), true
+					}
 					if !spec {
 						sel.Unspecified = true
 					}
